@@ -9,6 +9,9 @@ CHECKS = {
    text='Lean theorems over the trace-callback machine (hits_exact, hits_invariant, unexecuted_absent; refinement abs_run from the hash-map machine the driver executes) hold for every event list, any threads, recursion, suspension; the executable model is tied to the real Cython callback + get_stats by K01 on recorded traces of generated programs; an independent oracle (the interpreter\'s own line events) turns any disagreement into a concrete failing program.',
    note=TB + 'Assumes NoCollision of hash(co_code) XOR line (checked on each run\'s concrete hashes) and that the sys.settrace recording predicts the C-level events (checked by K01 itself). A line in flight when the profiler is disabled is dropped by design.', ref='§4, §6 C01'),
 
+ 'C02': dict(cat='proof', tech='Lean 4 proof (time invariant by induction over arbitrary event lists; conservation by disjoint slot intervals) + virtual-clock correspondence',
+   text='Lean: time_exact (stored ticks of a line = the specification spent: each LINE event is charged from its own second clock read to the first clock read of the next event on the same (thread, bytecode) slot, for every event list and from every state: time_invariant), time_inclusive (under NoReentry that is the same invocation\'s next line/return/yield/raise: callees included, suspension excluded), time_nonneg (monotone clock), time_conserved (one thread: the line times of a function sum to at most the clock span), time_no_disabled (disable clears the slots); reentrancy_witness proves the full-strength inclusive statement false under recursion (known finding F-C02a). K02 builds the tree with its timers.c wrapped by a virtual clock and compares every total_time cell of model and real profiler (one tick per clock read, so misplaced clock reads show); the oracle is an independent per-invocation accounting of the recorded run against a real run with a free clock, plus non-negativity and conservation; a real-clock calibration test checks time*unit = seconds.',
+   note=TB + 'Partial: "time multiplied by unit is seconds" and monotonicity of CLOCK_MONOTONIC are runtime facts (calibration test only). NoReentry excludes F-C02a (recursion; classified narrowly: label ran re-entrantly in the recorded run and reported < per-invocation ticks while model = real). NoCollision as in C01.', ref='§6 C02'),
  'C05': dict(cat='proof', tech='Lean 4 proof (invariant by induction over arbitrary by-count histories from arbitrary threads) + correspondence on the real profilers',
    text='Lean theorems over the transcribed enable_by_count/disable_by_count: tracing_iff_positive, count_clipped (entries minus exits clipped at 0, thread-local), call_restores (every well-bracketed nest leaves count, tracing and tool id as found), enable_ok (never raises). K05 observes (enable_count, trace slot, sys.monitoring tool id) on the real LineProfiler and ContextualProfile after every operation and inside decorated bodies for all short and many random histories from 1-3 threads.',
    note=TB + 'Thread operations are serialised by the harness; the wrappers\' bracket structure (enable; try; finally disable) is what the harness feeds the model, so a wrapper that stops bracketing shows as a K05/oracle disagreement. Direct enable()/disable() excluded as in the property.', ref='§6 C05'),
